@@ -63,7 +63,10 @@ CLAIM = dict(
          'np.bool_ and False / 0 / np.bool_), call histories (every routine three times on the same argument objects, interleaved; '
          'results identical to a fresh call, arguments bit-identical afterwards), scales (whole input times 2^+-1000 spread over the '
          'cores, one core times 2^+-480, d = 1, subnormal maxima and the edges 2^-1022 / 2^-1074 in core_stab, thresholds hit exactly, '
-         'few-bit entries around 2^-531 whose pairwise products are subnormal). KEPT OUT (not covered by the property text, which '
+         'few-bit entries around 2^-531 whose pairwise products are subnormal; exact-threshold family of accuracy: tensor pairs '
+         'whose exact exponent gap floor(log2|Y1-Y2|^2) - floor(log2|Y2|^2) is 998..1003, i.e. exactly at and one half-step around '
+         'the documented +-500, where the search demands the saturation value iff the gap exceeds 1000 and the true distance '
+         'otherwise - sharp whenever neither squared norm is within 2^-30 of a power of two). KEPT OUT (not covered by the property text, which '
          'starts at d = 2 and speaks of float tensors): accuracy for d = 1 (act_two.sub of one-core tensors is not a TT-tensor and '
          'accuracy raises ValueError); int64 cores with entries above 2^5 (numpy integer products wrap around silently beyond 2^31, '
          'also in the plain mul_scalar). KNOWN FINDING (key C16/entries-beyond-sqrt-range), generators of the other families stay clear of it: cores whose '
@@ -1509,6 +1512,13 @@ def chk_norm(tn, inp):
     return None
 
 
+def near_pow2(S):
+    """S > 0 lies within a relative 2^-30 of a power of two"""
+    b = S.bit_length()
+    x = S >> (b - 64) if b > 64 else S << (64 - b)
+    return x < (1 << 63) + (1 << 33) or x > (1 << 64) - (1 << 34)
+
+
 def chk_accuracy(tn, inp):
     Y1 = tts(inp[0])
     same = inp[1] is None
@@ -1540,6 +1550,20 @@ def chk_accuracy(tn, inp):
         rm, re = me_sqrt(m, e)
         lg = re + math.log2(rm)
         exp_txt = f'{rm!r} * 2^{re}'
+        # the documented thresholds, stated on exact quantities: with P = floor(log2 ||.||^2) (what norm(use_stab) returns,
+        # twice its exponent), accuracy saturates to 1e299 iff P1 - P2 > 1000 (exponent gap > 500) and to 0 iff
+        # P1 - P2 < -1000.  Sharp whenever neither squared norm is within 2^-30 of a power of two and the float
+        # evaluation of ||Y1 - Y2||^2 is well conditioned (then the floors computed in floating point are the exact ones).
+        gap = (N1[1] + N1[0].bit_length()) - (S22[1] + S22[0].bit_length())
+        if not near_pow2(N1[0]) and not near_pow2(S22[0]) and delta <= 1e-10 * me_float(m, e) and abs(gap) <= 1010:
+            exp_txt += f', exponent gap {gap}/2'
+            if gap > 1000:
+                return None if r == 1e299 else F('accuracy: an exponent gap above 500 must saturate to 1e299', r, exp_txt)
+            if gap < -1000:
+                return None if r == 0.0 else F('accuracy: an exponent gap below -500 must give 0', r, exp_txt)
+            if r == 1e299 or (r == 0.0):
+                return F('accuracy returns a saturation value although the exponent gap of the two norms is within [-500, 500]',
+                         r, exp_txt)
         if lg > 501:
             return None if r == 1e299 else F('accuracy: relative distance above 2^501 must saturate to 1e299', r, exp_txt)
         if lg < -501:
@@ -2091,6 +2115,29 @@ def search_jobs(rng, th, deep):
         Y2 = gen_float(rng, d, mode, rmax=2, nmax=2, like=Y1, same_scales=True)
         J.append(('accuracy', [tt_desc(Y1), tt_desc(Y2)]))
         J.append(('accuracy', [tt_desc(Y2), None]))
+    # exact-threshold family: exponent gap of the two norms exactly at, one half-step below and above +-500 (P1 - P2 in
+    # 998..1003), steered with exact big-integer norms (no call of the implementation): disjoint supports, and Y1 = 2^g * Y2
+    for tgt in [998, 999, 1000, 1001, 1002, 1003] + ([1000, 1001, 1000] if deep or th else []):
+        for _ in range(30):
+            d = rng.choice([2, 3, 5, 9, 30] + ([dbig] if th else []))
+            Y1 = gen_float(rng, d, 'unit', rmax=2, nmax=2, n0=2)
+            Y2 = gen_float(rng, d, 'unit', rmax=2, nmax=2, like=Y1)
+            Y1[0].arr[:, 1, :] = 0.0
+            Y2[0].arr[:, 0, :] = 0.0
+            Y1 = spread_shift(Y1, 40)
+            I1, I2 = ints_of(Y1), ints_of(Y2)
+            n1, n2 = exact_dot(I1, I1), exact_dot(I2, I2)
+            if n1[0] == 0 or n2[0] == 0:
+                continue
+            nn = dy_sum([n1, n2])
+            g0 = (nn[1] + nn[0].bit_length()) - (n2[1] + n2[0].bit_length())
+            if (tgt - g0) % 2 == 0:
+                J.append(('accuracy', [tt_desc(spread_shift(Y1, (tgt - g0) // 2)), tt_desc(Y2)]))
+                break
+    for g in (499, 500, 501):
+        d = rng.choice([2, 4, 12, 60] + ([dbig] if th else []))
+        Y2 = gen_float(rng, d, rng.choice(['up', 'down', 'mixed']), rmax=rng.choice([1, 2, 3]), nmax=2, lo=0.1)
+        J.append(('accuracy', [tt_desc(spread_shift(Y2, g)), tt_desc(Y2)]))
     Y = gen_float(rng, 4, 'unit', rmax=2)
     J.append(('accuracy', [tt_desc(Y), tt_desc(with_zero_core(Y, 2))]))
     J.append(('accuracy', [tt_desc(spread_shift(Y, 1200)), tt_desc(with_zero_core(Y, 0))]))
